@@ -1,6 +1,8 @@
 /-
   C02 — Loading accepts exactly the well-formed boot informations.
 -/
+import Mb2.Props.FnsLinked
+import Mb2.Props.FnsGetters
 import Mb2.Props.FnsBytesRef
 import Mb2.Props.FnsMbiLoad
 import Mb2.Props.FnsBiHdr
